@@ -39,7 +39,7 @@ EPS = 1e-6
 
 
 def plan(tier, seed):
-    n = 3200 if tier == "quick" else 96000
+    n = 3200 if tier == "quick" else 48000
     shards = 16 if tier == "quick" else 48
     return [{"seed": seed * 1000003 + i, "n": n // shards} for i in range(shards)]
 
